@@ -20,13 +20,22 @@ func NewWriteInPlaceHandler(inputFile string) writeInPlaceHandler {
 }
 
 func (w *writeInPlaceHandlerImpl) CreateTempFile() (*os.File, error) {
+	if err := verifPoint("create_temp"); err != nil {
+		return nil, err
+	}
 	file, err := createTempFile()
 
 	if err != nil {
 		return nil, err
 	}
+	if err := verifPoint("stat_target"); err != nil {
+		return nil, err
+	}
 	info, err := os.Stat(w.inputFilename)
 	if err != nil {
+		return nil, err
+	}
+	if err := verifPoint("chmod_temp"); err != nil {
 		return nil, err
 	}
 	err = os.Chmod(file.Name(), info.Mode())
@@ -35,6 +44,9 @@ func (w *writeInPlaceHandlerImpl) CreateTempFile() (*os.File, error) {
 		return nil, err
 	}
 
+	if err := verifPoint("chown_temp"); err != nil {
+		return nil, err
+	}
 	if err = changeOwner(info, file); err != nil {
 		return nil, err
 	}
@@ -45,7 +57,13 @@ func (w *writeInPlaceHandlerImpl) CreateTempFile() (*os.File, error) {
 
 func (w *writeInPlaceHandlerImpl) FinishWriteInPlace(evaluatedSuccessfully bool) error {
 	log.Debug("Going to write in place, evaluatedSuccessfully=%v, target=%v", evaluatedSuccessfully, w.inputFilename)
+	if err := verifPoint("finish_before_close"); err != nil {
+		return err
+	}
 	safelyCloseFile(w.tempFile)
+	if err := verifPoint("finish_after_close"); err != nil {
+		return err
+	}
 	if evaluatedSuccessfully {
 		log.Debug("Moving temp file to target")
 		return tryRenameFile(w.tempFile.Name(), w.inputFilename)
